@@ -39,11 +39,117 @@ class C14(Hist1Prop):
     N_THOROUGH = 8000
     RULE = ("in-range dyadic data and weights entered through h1(), fill() and fill_n() (random chunkings), sums of partial "
             "histograms, copies, positive rescalings (powers of two), then the operations that must invalidate the statistics "
-            "(subtraction, construction from bare frequencies, slicing). non-trivial = at least 2 distinct values entered; "
+            "(subtraction, construction from bare frequencies, slicing); one case in three is a random HISTORY on one histogram (fill, "
+            "fill_n, *= /= * / by powers of two, in-place normalize, copy, + a histogram of further data) whose statistics are "
+            "compared after every step with the raw data entered so far (weights rescaled); every history is also run without "
+            "reading the histogram between the operations. non-trivial = at least 2 distinct values entered; "
             "distinct = hash of the op list")
     FIELDS = {"stats", "freq"}
 
+    def gen_mixed(self, rng):
+        """one histogram with a random HISTORY: fills, batches, in-place and copying rescalings (powers of two), in-place
+        normalisation, copies, additions of histograms built from further data -- the statistics must at every point be
+        those of all the raw data entered so far, with the weights rescaled (mean, variance, minimum, maximum unchanged)"""
+        pairs = dy_bins(rng)
+        b = gen1.binning_json(pairs, rng=rng, form="pairs")
+        ops = []
+        n0 = rng.choice([0, 0, 1, 3, 5])
+        v0 = inrange_values(rng, pairs, n0)
+        if rng.random() < 0.5:
+            ops.append({"op": "construct", "out": 0, "binning": b, "data": gen1.enc_vals(v0), "weights": None, "wkind": None})
+        else:
+            ops.append({"op": "empty", "out": 0, "binning": b})
+            v0 = []
+        cur, nreg = 0, 1
+        for _ in range(rng.randint(2, 8)):
+            kind = rng.choice(["fill", "fill", "fill", "fill_n", "imul", "idiv", "mul", "div", "copy", "add", "normalize"])
+            if kind == "fill":
+                w = rng.choice([1, 1, 2, 0.5, 3])
+                ops.append({"op": "fill", "h": cur, "v": rs(inrange_values(rng, pairs, 1)[0]), "w": rs(w),
+                            "wk": "pyint" if isinstance(w, int) else "pyfloat", "default_w": w == 1 and rng.random() < 0.5})
+            elif kind == "fill_n":
+                m = rng.choice([0, 1, 2, 4])
+                vs = inrange_values(rng, pairs, m)
+                ws = None if rng.random() < 0.5 else [rs(rng.choice([1, 2, 0.5, 0.25])) for _ in vs]
+                ops.append({"op": "fill_n", "h": cur, "vs": gen1.enc_vals(vs), "ws": ws, "wkind": "float64"})
+            elif kind in ("imul", "idiv", "mul", "div"):
+                c = rng.choice([2, 4, 0.5, 0.25, 8])
+                op = {"op": kind, "h": cur, "c": rs(c), "k": rng.choice(["pyint", "int64"]) if isinstance(c, int) else rng.choice(["pyfloat", "float64"])}
+                if kind in ("mul", "div"):
+                    op["out"] = nreg; cur = nreg; nreg += 1
+                ops.append(op)
+            elif kind == "copy":
+                ops.append({"op": "copy", "h": cur, "out": nreg}); cur = nreg; nreg += 1
+            elif kind == "add":
+                vs = inrange_values(rng, pairs, rng.choice([1, 2, 3]))
+                ops.append({"op": "construct", "out": nreg, "binning": b, "data": gen1.enc_vals(vs), "weights": None, "wkind": None})
+                ops.append({"op": "add", "a": cur, "b": nreg, "out": nreg + 1}); cur = nreg + 1; nreg += 2
+            else:
+                ops.append({"op": "normalize", "h": cur, "inplace": True, "maybe_refused": True})
+        return {"kind": "hist1", "ops": ops, "tags": ["mixed_history"], "mixed": True, "tolerance": True}
+
+    def oracle_mixed(self, case, io):
+        """track, per register, the raw (value, weight) pairs with the weights rescaled; compare after every step"""
+        outs = io["outs"]
+        data = {}
+        fails = []
+        for k, (op, o) in enumerate(zip(case["ops"], outs)):
+            name = op["op"]
+            if o["ret"] == "REFUSED":
+                tot = sum((w for _, w in data.get(op.get("h"), [])), Fraction(0))
+                if name == "normalize" and tot == 0:
+                    continue
+                return [f"refused_valid: step {k} ({name}) was refused: " + "; ".join(io["log"][:1])]
+            if name == "construct":
+                data[op["out"]] = [(Fraction(v), Fraction(1)) for v in op["data"] if v is not None]
+            elif name == "empty":
+                data[op["out"]] = []
+            elif name == "fill":
+                data[op["h"]] = data[op["h"]] + [(Fraction(op["v"]), Fraction(op["w"]))]
+            elif name == "fill_n":
+                ws = op["ws"] or ["1"] * len(op["vs"])
+                data[op["h"]] = data[op["h"]] + [(Fraction(v), Fraction(w)) for v, w in zip(op["vs"], ws) if v is not None]
+            elif name in ("imul", "idiv", "mul", "div"):
+                c = Fraction(op["c"]) if name in ("imul", "mul") else 1 / Fraction(op["c"])
+                data[op.get("out", op["h"])] = [(v, w * c) for v, w in data[op["h"]]]
+            elif name == "copy":
+                data[op["out"]] = list(data[op["h"]])
+            elif name == "add":
+                data[op["out"]] = data[op["a"]] + data[op["b"]]
+            elif name == "normalize":
+                tot = sum((w for _, w in data[op["h"]]), Fraction(0))
+                data[op["h"]] = [(v, w / tot) for v, w in data[op["h"]]]
+            for r, pairs in data.items():
+                st = o["regs"][r]["stats"] if r < len(o["regs"]) and o["regs"][r] is not None else None
+                if st is None:
+                    continue
+                if not st["valid"]:
+                    fails.append(f"stats_invalid_history: statistics of register {r} are invalid after step {k} ({name})")
+                    continue
+                W = sum((w for _, w in pairs), Fraction(0))
+                S = sum((w * v for v, w in pairs), Fraction(0))
+                S2 = sum((w * v * v for v, w in pairs), Fraction(0))
+                tol = lambda x: abs(x) * Fraction(1, 10**9) + Fraction(1, 10**12)
+                for f, e in (("weight", W), ("sum", S), ("sum2", S2)):
+                    if abs(Fraction(st[f]) - e) > tol(e):
+                        fails.append(f"stats_{f}_history: register {r} after step {k} ({name}): {f} = {st[f]}, the raw data (weights rescaled) give {e}")
+                for f, e in (("min", min((v for v, _ in pairs), default=None)), ("max", max((v for v, _ in pairs), default=None))):
+                    got = None if st[f] is None else Fraction(st[f])
+                    if got != e:
+                        fails.append(f"stats_{f}_history: register {r} after step {k} ({name}): {f} = {st[f]}, the raw data give {e}")
+                if W > 0:
+                    mean, var = S / W, (S2 - S * S / W) / W
+                    if st["mean"] is None or abs(Fraction(st["mean"]) - mean) > tol(mean):
+                        fails.append(f"mean_history: register {r} after step {k} ({name}): mean() = {st['mean']}, weighted mean of the data = {mean}")
+                    if st["variance"] is None or abs(Fraction(st["variance"]) - var) > abs(var) * Fraction(1, 10**9) + Fraction(1, 10**9):
+                        fails.append(f"variance_history: register {r} after step {k} ({name}): variance() = {st['variance']}, population variance = {var}")
+            if fails:
+                break
+        return fails[:5]
+
     def gen_case(self, rng, k, tier):
+        if k % 3 == 1:
+            return self.gen_mixed(rng)
         pairs = dy_bins(rng)
         b = gen1.binning_json(pairs, rng=rng, form="pairs")
         n = rng.choice([0, 1, 2, 3, 5, 8, 13])
@@ -96,6 +202,14 @@ class C14(Hist1Prop):
         return {"kind": "hist1", "ops": ops, "tags": ["tail:" + src["tail"]], "src": src}
 
     def shrink_candidates(self, case):
+        if case.get("mixed"):
+            for k in range(len(case["ops"]) - 1, 0, -1):
+                c = copy.deepcopy(case)
+                del c["ops"][k]
+                if all(o.get("h", 0) in self._defined(c["ops"][:i]) and o.get("a", 0) in self._defined(c["ops"][:i])
+                       and o.get("b", 0) in self._defined(c["ops"][:i]) for i, o in enumerate(c["ops"]) if i):
+                    yield c
+            return
         src = case["src"]
         n = len(src["vals"])
         for i in range(n):
@@ -112,7 +226,13 @@ class C14(Hist1Prop):
             s2 = copy.deepcopy(src); s2["tail"] = "none"
             yield self.build(s2)
 
+    @staticmethod
+    def _defined(ops):
+        return {o["out"] for o in ops if "out" in o}
+
     def oracle(self, case, io):
+        if case.get("mixed"):
+            return self.oracle_mixed(case, io)
         outs = io["outs"]
         if any(o["ret"] == "REFUSED" for o in outs):
             return ["refused_valid: a valid call was refused: " + "; ".join(io["log"][:2])]
@@ -179,6 +299,8 @@ class C14(Hist1Prop):
         return fails[:6]
 
     def nontrivial(self, case, io):
+        if case.get("mixed"):
+            return sum(1 for o in case["ops"] if o["op"] in ("fill", "fill_n", "construct")) >= 2
         return len(set(case["src"]["vals"])) >= 2
 
 
